@@ -9,7 +9,9 @@ print(f"""You are given a scratch git worktree of the Rust repository bestinslot
 (BRC2.0 programmable module: a revm-based EVM execution engine for BRC20 indexers, with a reorg-capable
 block-history cache over RocksDB and a JSON-RPC server). Work ONLY inside {wt}. Never touch /repo or /verif and
 do not read anything under /verif. The sandbox has no network: always pass --offline to cargo (CARGO_NET_OFFLINE=true).
-A pre-built target directory is at {wt}/target, so `cargo test --offline` only recompiles the crate itself.
+Disk space is scarce: do NOT build into {wt}/target. Always run cargo with `export CARGO_TARGET_DIR=/tmp/seed/shared-target`
+(a pre-built target directory shared with other workers; cargo takes a lock on it while building, so a build may wait a little).
+With it, `cargo test --offline` only recompiles the crate itself.
 
 A semantic property that users of this module rely on:
 
